@@ -276,6 +276,44 @@ def vanish_schedules(ctx):
                      last_leave=first_life[len(first_start):], leave_with_company=with_company)
 
 
+def interfere_schedules(ctx):
+    """Bare FMMULock, code-driven: one participant is stopped at every boundary between two calls
+    its allocation / its remove() REALLY makes (learned from probe runs of the real code) while a
+    second one runs a whole allocation or a whole remove() in between; then the first goes on, a
+    third joins, everybody leaves.  The model's order of calls cannot produce these interleavings
+    for a protocol that differs from the model's (a read in front of the lock, say)."""
+    probes = replay_schedules(ctx, [dict(schedule=[], nprocs=1, mode="fmmu"),
+                                    dict(schedule=[], nprocs=2, mode="fmmu")], controllers=1)
+    solo, duo = probes[0]["ev"], probes[1]["ev"]
+
+    def calls(ev, p, upto_running):
+        out = []
+        for e in ev:
+            if e["p"] == p:
+                out.append(e["a"])
+                if upto_running and e["st"][p]["ph"] == "running":
+                    break
+        return out
+    start1, life1 = calls(solo, "p1", True), calls(solo, "p1", False)
+    start2, life2 = calls(duo, "p2", True), calls(duo, "p2", False)
+    leave1, leave2 = life1[len(start1):], life2[len(start2):]
+    if not start1 or not start2 or not leave1 or not leave2:
+        raise T.MachineryError(f"bare probe runs of the real code are incomplete: {text(solo)} / {text(duo)}")
+    go = lambda p, n: [dict(p=p, a=None, c=0)] * n
+    out = []
+    for i in range(len(start1) + 1):             # p1 allocating, p2 allocates in between
+        out.append(dict(source="interfere alloc/alloc", nprocs=3, mode="fmmu", predicted=[], random=True,
+                        schedule=go("p1", i) + go("p2", len(start2)) + go("p1", len(start1) - i)))
+    for i in range(len(leave1) + 1):             # p1 removing, p2 allocates in between
+        out.append(dict(source="interfere remove/alloc", nprocs=3, mode="fmmu", predicted=[], random=True,
+                        schedule=go("p1", len(start1) + i) + go("p2", len(start2)) + go("p1", len(leave1) - i)))
+    for i in range(len(leave1) + 1):             # p1 removing, p2 removes in between
+        out.append(dict(source="interfere remove/remove", nprocs=3, mode="fmmu", predicted=[], random=True,
+                        schedule=go("p1", len(start1)) + go("p2", len(start2)) + go("p3", len(start2))
+                        + go("p1", i) + go("p2", len(leave2)) + go("p1", len(leave1) - i)))
+    return out, dict(alloc=start1, alloc_joiner=start2, remove=leave1)
+
+
 # ---- replay on the real code -----------------------------------------------------------------
 def _replay_chunk(args):
     """one controller process: replays its share of the schedules, reusing its worker processes"""
@@ -537,6 +575,9 @@ def run(ctx):
     vs, learned = vanish_schedules(ctx)
     ctx.extra["vanish_code_driven"] = dict(schedules=len(vs), calls_of_the_real_code=learned)
     scheds += vs
+    its, learned_bare = interfere_schedules(ctx)
+    ctx.extra["interfere_code_driven_bare"] = dict(schedules=len(its), calls_of_the_real_code=learned_bare)
+    scheds += its
     scheds += random_schedules(ctx, 15 if quick else 150) + random_schedules(ctx, 8 if quick else 60, "fmmu")
     t0 = time.time()
     traces = replay_schedules(ctx, scheds)
